@@ -1,7 +1,11 @@
 (** C03, translator tie: the multiplication primitives of /repo's CURRENT src/primitives.rs (Src/GenPrim.v, regenerated
-    on every run) are the model primitives, hence exact. Statements only; proofs in Src/GenPrimP.v. *)
-From CB Require Import Model.SrcPrelude Model.Word Model.Limbs Src.GenPrim Src.GenPrimP Proofs.WordP.
-From Coq Require Import ZArith.
+    on every run) are the model primitives, hence exact; `schoolbook_multiplication` of src/uint/mul.rs with `Limb::mac`
+    of src/limb/mul.rs (Src/GenMul.v) is the model's schoolbook_mul, `schoolbook_squaring` (with `Limb::overflowing_add`,
+    `Limb::shr`) is the model's schoolbook_sq, hence both are exact for all limb counts.
+    Statements only; proofs in Src/GenPrimP.v, Src/GenMulP.v. *)
+From CB Require Import Model.SrcPrelude Model.Word Model.Limbs Model.Mul Src.GenPrim Src.GenPrimP Src.GenMul Src.GenMulP Proofs.WordP.
+From Coq Require Import ZArith List.
+Import ListNotations.
 Open Scope Z_scope.
 
 Theorem C03_src_mac : forall a b c k, is_word a -> is_word b -> is_word c -> is_word k -> g_mac a b c k = mac a b c k.
@@ -21,6 +25,85 @@ Theorem C03_src_mac_exact : forall a b c k lo hi, is_word a -> is_word b -> is_w
   g_mac a b c k = (lo, hi) -> lo + B * hi = a + b * c + k /\ is_word lo /\ is_word hi.
 Proof. exact g_mac_exact. Qed.
 Print Assumptions C03_src_mac_exact.
+
+(* ---------------- schoolbook_multiplication (two nested slice loops, writes through &mut lo / &mut hi) *)
+Theorem C03_src_limb_mac : forall a b c k, is_word a -> is_word b -> is_word c -> is_word k -> g_limb_mac a b c k = mac a b c k.
+Proof. exact g_limb_mac_eq. Qed.
+Print Assumptions C03_src_limb_mac.
+
+(** [g_schoolbook_multiplication lhs rhs lo hi] is the pair of the final contents of the `&mut` buffers (lo, hi).
+    The `panic!("schoolbook multiplication length mismatch")` guard is not taken exactly under the two length hypotheses;
+    lhs.len() + rhs.len() is a usize (so `i + j` does not wrap). For ANY incoming buffer contents the source computes the
+    model's rows on the single list lo ++ hi and splits it at lhs.len(). *)
+Theorem C03_src_schoolbook_rows : forall lhs rhs lo hi,
+  length lo = length lhs -> length hi = length rhs -> Z.of_nat (length lhs + length rhs) < 2 ^ 64 ->
+  wf lhs -> wf rhs -> wf lo -> wf hi ->
+  g_schoolbook_multiplication lhs rhs lo hi = split_at (length lhs) (schoolbook_rows (lo ++ hi) 0 lhs rhs).
+Proof. exact g_schoolbook_rows_eq. Qed.
+Print Assumptions C03_src_schoolbook_rows.
+
+(** on zeroed buffers (uint_mul_limbs, mul_limbs): the model function of C03_schoolbook_mul_exact / C03_kmul_exact level 0 *)
+Theorem C03_src_schoolbook_mul : forall xs ys, Z.of_nat (length xs + length ys) < 2 ^ 64 -> wf xs -> wf ys ->
+  g_schoolbook_multiplication xs ys (zeros (length xs)) (zeros (length ys)) = split_at (length xs) (schoolbook_mul xs ys).
+Proof. exact g_schoolbook_eq. Qed.
+Print Assumptions C03_src_schoolbook_mul.
+
+(** hence the SOURCE text computes the exact double-width product, for every pair of limb counts and all limb values *)
+Theorem C03_src_schoolbook_exact : forall xs ys lo hi, Z.of_nat (length xs + length ys) < 2 ^ 64 -> wf xs -> wf ys ->
+  g_schoolbook_multiplication xs ys (zeros (length xs)) (zeros (length ys)) = (lo, hi) ->
+  eval lo + Bn (length xs) * eval hi = eval xs * eval ys /\ wf lo /\ wf hi /\ length lo = length xs /\ length hi = length ys.
+Proof. exact g_schoolbook_exact. Qed.
+Print Assumptions C03_src_schoolbook_exact.
+
+(** non-vacuity: the generated function runs on multi-limb inputs (3 x 2 limbs with every carry set; a dirty buffer; the
+    length guard) *)
+Example C03_src_schoolbook_runs :
+  g_schoolbook_multiplication [2 ^ 64 - 1; 2 ^ 64 - 1; 2 ^ 64 - 1] [2 ^ 64 - 1; 2 ^ 64 - 1] [0; 0; 0] [0; 0] =
+    ([1; 0; 2 ^ 64 - 1], [2 ^ 64 - 2; 2 ^ 64 - 1]) /\
+  g_schoolbook_multiplication [3; 5] [7] [0; 0] [0] = ([21; 35], [0]) /\
+  g_schoolbook_multiplication [3; 5] [7] [1; 0] [9] = ([22; 35], [0]) /\
+  g_schoolbook_multiplication [3; 5] [7] [0] [0] = panic_ ([], []).
+Proof. vm_compute. repeat split. Qed.
+
+(* ---------------- schoolbook_squaring (half grid from `let mut i = 1` with inner `while j < i`, in-place doubling over
+   limbs.len() and limbs.len() - 1 limbs, diagonal with mac + overflowing_add; every write goes through the lo / hi split) *)
+Theorem C03_src_limb_overflowing_add : forall a b, is_word a -> is_word b -> g_limb_overflowing_add a b = overflowing_add a b.
+Proof. exact g_limb_overflowing_add_eq. Qed.
+Print Assumptions C03_src_limb_overflowing_add.
+
+(** for ANY incoming buffer contents (the `panic!("schoolbook squaring length mismatch")` guard is not taken under the two
+    length hypotheses; limbs.len() >= 1: `limbs.len() - 1` underflows on the empty slice; 2 * limbs.len() is a usize):
+    half grid = sq_rows, doubling = shl1_go on the first 2n - 1 limbs, diagonal = sq_diag, all on the single list lo ++ hi *)
+Theorem C03_src_squaring_stages : forall xs lo hi, (1 <= length xs)%nat ->
+  length lo = length xs -> length hi = length xs -> Z.of_nat (2 * length xs) < 2 ^ 64 -> wf xs -> wf lo -> wf hi ->
+  g_schoolbook_squaring xs lo hi =
+  split_at (length xs)
+    (sq_diag (fst (shl1_go (firstn (2 * length xs - 1) (sq_rows (lo ++ hi) 1 (tl xs) xs)) 0) ++
+              [snd (shl1_go (firstn (2 * length xs - 1) (sq_rows (lo ++ hi) 1 (tl xs) xs)) 0)]) 0 xs 0).
+Proof. exact g_squaring_rows_eq. Qed.
+Print Assumptions C03_src_squaring_stages.
+
+(** on zeroed buffers (uint_square_limbs, square_limbs): the model function of C03_schoolbook_sq_exact / C03_ksq_exact level 0 *)
+Theorem C03_src_schoolbook_sq : forall xs, (1 <= length xs)%nat -> Z.of_nat (2 * length xs) < 2 ^ 64 -> wf xs ->
+  g_schoolbook_squaring xs (zeros (length xs)) (zeros (length xs)) = split_at (length xs) (schoolbook_sq xs).
+Proof. exact g_squaring_eq. Qed.
+Print Assumptions C03_src_schoolbook_sq.
+
+Theorem C03_src_squaring_exact : forall xs lo hi, (1 <= length xs)%nat -> Z.of_nat (2 * length xs) < 2 ^ 64 -> wf xs ->
+  g_schoolbook_squaring xs (zeros (length xs)) (zeros (length xs)) = (lo, hi) ->
+  eval lo + Bn (length xs) * eval hi = eval xs * eval xs /\ wf lo /\ wf hi /\ length lo = length xs /\ length hi = length xs.
+Proof. exact g_squaring_exact. Qed.
+Print Assumptions C03_src_squaring_exact.
+
+Example C03_src_squaring_runs :
+  g_schoolbook_squaring [2 ^ 64 - 1; 2 ^ 64 - 1; 2 ^ 64 - 1] [0; 0; 0] [0; 0; 0] =
+    ([1; 0; 0], [2 ^ 64 - 2; 2 ^ 64 - 1; 2 ^ 64 - 1]) /\
+  g_schoolbook_squaring [3; 5] [0; 0] [0; 0] = ([9; 30], [25; 0]) /\
+  g_schoolbook_squaring [7] [0] [0] = ([49], [0]) /\
+  g_schoolbook_squaring [2 ^ 64 - 1; 2 ^ 64 - 1; 3] [0; 0; 0] [0; 0; 0] =
+    g_schoolbook_multiplication [2 ^ 64 - 1; 2 ^ 64 - 1; 3] [2 ^ 64 - 1; 2 ^ 64 - 1; 3] [0; 0; 0] [0; 0; 0] /\
+  g_schoolbook_squaring [3; 5] [0; 0] [0] = panic_ ([], []).
+Proof. vm_compute. repeat split. Qed.
 
 Example C03_src_runs : g_mac (2 ^ 64 - 1) (2 ^ 64 - 1) (2 ^ 64 - 1) (2 ^ 64 - 1) = (2 ^ 64 - 1, 2 ^ 64 - 1).
 Proof. vm_compute. reflexivity. Qed.
